@@ -57,6 +57,12 @@ class CGraph:
             memo[id(self)] = new
             for key, value in self.__dict__.items():
                 setattr(new, key, copy.deepcopy(value, memo))
+            # copied values own their data: re-evaluate the copy at its own
+            # point so that view nodes (x[0], x.T, ...) are views of their
+            # parents again, as the reverse sweep expects
+            indep = getattr(new, 'independentFunctionList', None)
+            if indep:
+                new.pushforward([f.x for f in indep])
         finally:
             Function.cgraph = saved
         return new
